@@ -9,10 +9,14 @@ import (
 	"context"
 	"crypto/x509"
 	"encoding/json"
+	"encoding/pem"
 	"fmt"
 	"io"
+	"os"
+	"path/filepath"
 	"sort"
 	"strings"
+	"sync"
 	"testing/iotest"
 	"time"
 
@@ -63,12 +67,35 @@ func rtChain(ks string) *Chain {
 	})
 }
 
-func rtSigner(in RTIn, chain *Chain) interface {
+func rtSigner(in RTIn, chain *Chain, id int) interface {
 	notation.Signer
 	notation.BlobSigner
 } {
+	both := func(s notation.Signer, err error) interface {
+		notation.Signer
+		notation.BlobSigner
+	} {
+		must(err)
+		return s.(interface {
+			notation.Signer
+			notation.BlobSigner
+		})
+	}
 	switch in.Signer {
 	case "local", "localTSA":
+		// the local signer through each of its constructors: from key and chain in memory, from PEM files, and their
+		// deprecated twins
+		keyFile, certFile := rtKeyFiles(in.KeySpec, chain)
+		switch mix(*flagSeed, id, "ctor") % 4 {
+		case 1:
+			s, err := signer.NewGenericSignerFromFiles(keyFile, certFile)
+			must(err)
+			return s
+		case 2:
+			return both(signer.NewFromFiles(keyFile, certFile))
+		case 3:
+			return both(signer.New(chain.LeafKey(), chain.Certs))
+		}
 		s, err := signer.NewGenericSigner(chain.LeafKey(), chain.Certs)
 		must(err)
 		return s
@@ -155,7 +182,7 @@ func runRoundTrip() int {
 		var in RTIn
 		must(json.Unmarshal(c.In, &in))
 		chain := rtChain(in.KeySpec)
-		sg := rtSigner(in, chain)
+		sg := rtSigner(in, chain, c.ID)
 		ver, bver := rtVerifier(chain, in.Signer == "localTSA")
 		meta := rtMeta(in.Meta)
 		ctx := context.Background()
@@ -344,4 +371,25 @@ func blobReader(blob []byte, salt uint32) io.Reader {
 		return io.MultiReader(bytes.NewReader(blob[:len(blob)/2]), iotest.DataErrReader(bytes.NewReader(blob[len(blob)/2:])))
 	}
 	return bytes.NewReader(blob)
+}
+
+// rtKeyFiles writes (once per key spec) the signing key (PKCS#8 PEM) and the chain, leaf first, to files.
+var rtKeyFilesMu sync.Mutex
+var rtKeyFilesDone = map[string][2]string{}
+
+func rtKeyFiles(ks string, chain *Chain) (string, string) {
+	rtKeyFilesMu.Lock()
+	defer rtKeyFilesMu.Unlock()
+	if f, ok := rtKeyFilesDone[ks]; ok {
+		return f[0], f[1]
+	}
+	dir, err := os.MkdirTemp(*flagScratch, "rtkeys")
+	must(err)
+	der, err := x509.MarshalPKCS8PrivateKey(chain.LeafKey())
+	must(err)
+	kf, cf := filepath.Join(dir, ks+".key"), filepath.Join(dir, ks+".crt")
+	must(os.WriteFile(kf, pem.EncodeToMemory(&pem.Block{Type: "PRIVATE KEY", Bytes: der}), 0600))
+	must(os.WriteFile(cf, pemOf(chain.Certs...), 0644))
+	rtKeyFilesDone[ks] = [2]string{kf, cf}
+	return kf, cf
 }
